@@ -74,6 +74,35 @@ def split_top(s, sep=','):
     return out
 
 
+def split_call(rhs):
+    """'callee(args)' -> (callee, args text); parentheses inside string / char literals do not count"""
+    depth, i, n, q = 0, 0, len(rhs), None
+    start = end = None
+    while i < n:
+        ch = rhs[i]
+        if q:
+            if ch == '\\':
+                i += 1
+            elif ch == q:
+                q = None
+        elif ch == '"':
+            q = ch
+        elif ch == "'" and _CHAR_LIT.match(rhs, i):
+            i += len(_CHAR_LIT.match(rhs, i).group(0)) - 1
+        elif ch == '(':
+            if depth == 0:
+                start = i
+            depth += 1
+        elif ch == ')':
+            depth -= 1
+            if depth == 0:
+                end = i
+        i += 1
+    if start is None or end != n - 1:
+        return None
+    return rhs[:start].strip(), rhs[start + 1:end]
+
+
 def parse_params(s):
     res = []
     for p in split_top(s):
